@@ -64,6 +64,8 @@ type Spec struct {
 	Shutdown   string         `json:"shutdown"`           // end | mid
 	MidAfterUs int            `json:"mid_after_us"`
 	Quiesce    bool           `json:"quiesce"` // before Shutdown, wait until everything enqueued was written
+	QuiesceMs  int            `json:"quiesce_ms,omitempty"`
+	Glue       []string       `json:"glue,omitempty"` // start-twice | shutdown-twice | nil-adapter | late-adapter | pre-start | nil-tracer | concurrent-shutdown
 }
 
 var orgNames = []string{"orga", "orgb", "orgc"}
@@ -96,7 +98,14 @@ var orgs = []orgFns{
 // (different severities come from different call sites).
 func itemKey(item, lvl int) int { return item*8 + lvl }
 
-func msgText(gid, item int) string { return "g" + strconv.Itoa(gid) + " i" + strconv.Itoa(item) }
+// payloads make the message texts less uniform (the logger must treat them as opaque): empty, spaces,
+// format verbs, non-ASCII, control characters, long. The payload is a function of (gid, item), so
+// identical calls still produce identical lines.
+var payloads = []string{"", "", " x", " two words", " 100%d %s %v", " ünïcödé ✓", " tab\there", " nl\nline", " " + strings.Repeat("long ", 400)}
+
+func msgText(gid, item int) string {
+	return "g" + strconv.Itoa(gid) + " i" + strconv.Itoa(item) + payloads[(gid*31+item*7)%len(payloads)]
+}
 
 func parseMsg(s string) (gid, item int, ok bool) {
 	if len(s) < 4 || s[0] != 'g' {
@@ -107,8 +116,12 @@ func parseMsg(s string) (gid, item int, ok bool) {
 		return 0, 0, false
 	}
 	g, e1 := strconv.Atoi(s[1:sp])
-	i, e2 := strconv.Atoi(s[sp+2:])
-	if e1 != nil || e2 != nil {
+	end := sp + 2
+	for end < len(s) && s[end] >= '0' && s[end] <= '9' {
+		end++
+	}
+	i, e2 := strconv.Atoi(s[sp+2 : end])
+	if e1 != nil || e2 != nil || s != msgText(g, i) {
 		return 0, 0, false
 	}
 	return g, i, true
@@ -238,9 +251,15 @@ func (c *child) sink(point string, args ...any) {
 		ev := point[2:]
 		if ev == "line" {
 			ps.seq++
-			c.info[args[0]] = fmt.Sprintf("%d.%d:%s", gid, ps.seq, tok)
+			seq := ps.seq
+			if gid >= len(c.spec.Prods) {
+				seq = 0 // replayed pre-Start lines: no program order to compare the channel order with
+			}
+			c.info[args[0]] = fmt.Sprintf("%d.%d:%s", gid, seq, tok)
 			c.nLines.Add(1)
 			ps.cur = []string{fmt.Sprintf("p %d %d line", gid, ps.seq)}
+		} else if gid >= len(c.spec.Prods) {
+			// lines logged before Start are replayed by concurrent helper goroutines: no single call path
 		} else {
 			ps.cur = append(ps.cur, ev)
 			if ev == "ret" {
@@ -418,8 +437,25 @@ func childMain() {
 	first := cfgSnap{Glob: spec.Glob, Active: spec.Pkgs != nil, Pkgs: spec.Pkgs}
 	c.cfgs = []cfgSnap{first}
 
+	glue := map[string]bool{}
+	for _, g := range spec.Glue {
+		glue[g] = true
+	}
 	log.VerifSetSink(c.sink)
 	log.SetAdapter(c)
+	if glue["nil-adapter"] {
+		log.SetAdapter(nil) // documented no-op
+	}
+	preStart := 0
+	if glue["pre-start"] {
+		// logged before Start: outside the statement (replayed by helper goroutines in any order);
+		// counted, must not disturb anything else. Uses a goroutine id nobody else has.
+		preStart = 3
+		c.prods = append(c.prods, &prodState{}) // pseudo goroutine for the replayed lines
+		for i := 0; i < preStart; i++ {
+			log.Warning(msgText(len(spec.Prods), 1))
+		}
+	}
 	if spec.Paced {
 		log.EnableScheduling()
 	}
@@ -430,6 +466,16 @@ func childMain() {
 	if err := log.Start(); err != nil {
 		fmt.Fprintln(os.Stderr, "child: start:", err)
 		os.Exit(4)
+	}
+	if glue["start-twice"] {
+		_ = log.Start() // documented no-op
+	}
+	if glue["late-adapter"] {
+		log.SetAdapter(discard{}) // after Start: must be ignored
+	}
+	if glue["nil-tracer"] {
+		var nt *log.ContextTracer
+		nt.Submit() // documented no-op
 	}
 
 	stop := make(chan struct{})
@@ -494,7 +540,11 @@ func childMain() {
 		if spec.Quiesce && (!spec.Paced || spec.TriggerUs > 0) {
 			// liveness, with a tolerance far beyond the writer's 10 ms back-off: everything that was
 			// enqueued reaches the adapter without Shutdown having to flush it
-			deadline := time.Now().Add(20 * time.Second)
+			ms := spec.QuiesceMs
+			if ms <= 0 {
+				ms = 20000
+			}
+			deadline := time.Now().Add(time.Duration(ms) * time.Millisecond)
 			quiesce = "ok"
 			for c.nWritten.Load() < c.nLines.Load() {
 				if time.Now().After(deadline) {
@@ -507,7 +557,17 @@ func childMain() {
 	}
 	c.shutReq.Store(1)
 	shutDone := make(chan struct{})
-	go func() { log.Shutdown(); c.shutRet.Store(1); close(shutDone) }()
+	if glue["concurrent-shutdown"] {
+		go log.Shutdown()
+	}
+	go func() {
+		log.Shutdown()
+		c.shutRet.Store(1)
+		if glue["shutdown-twice"] {
+			log.Shutdown()
+		}
+		close(shutDone)
+	}()
 	hang := false
 	select {
 	case <-shutDone:
@@ -528,11 +588,22 @@ func childMain() {
 	// ---- dump the trace as case lines
 	w := bufio.NewWriterSize(res, 1<<16)
 	c.mu.Lock()
+	fmt.Fprintf(w, "np %d\n", len(c.prods))
 	for i, cf := range c.cfgs {
 		fmt.Fprintln(w, cf.line(i))
 	}
 	unfinished := 0
 	for gid, ps := range c.prods {
+		if gid >= len(spec.Prods) {
+			// lines logged before Start: optional, any form
+			fmt.Fprintf(w, "item %d %d %d 0 x u*%d\n", gid, itemKey(1, 4), 4, preStart)
+			ps.mu.Lock()
+			for _, p := range ps.paths {
+				fmt.Fprintln(w, p)
+			}
+			ps.mu.Unlock()
+			continue
+		}
 		ps.mu.Lock()
 		calls := append([]callRec{}, ps.calls...)
 		paths := append([]string{}, ps.paths...)
